@@ -593,7 +593,7 @@ func init() {
 		registerStandardExt()
 		c03stats = NewStats()
 		pollute(11) // earlier in this process: claims-sets from the stock factories were renamed / overwritten through their pointers
-		dl := deadline(r, 50*time.Second, 15*time.Minute)
+		dl := deadline(r, 120*time.Second, 15*time.Minute)
 		b := 3
 		if thorough(r) {
 			b = 4
